@@ -26,6 +26,11 @@ CHECKS = {
          "All DAGs up to 4 (thorough 5) commits x ref tips x wants x haves x depth are enumerated completely and run through the real ClosedSetsFinder (one or two Process rounds); time order, unknown haves, have order, round split, done flag, a missing table and the iteration order of the want set (owned through a build-time overlay of the map range) are explored as bounded deviations from defaults. Closure, parent-first order, no unreachable commit, depth-limited tables, refusal of unreachable wants and a polynomial read count (ladders up to 20 diamonds) are checked on every case.",
          "Trusted: bitmask reachability / BFS distance model; the in-memory object store and map-backed ref store (the finder only lists refs). Histories beyond 5 commits only as ladders.",
          "DESIGN.md §4 C08"),
+ "C19": ("exploration",
+         "bounded-exhaustive enumeration of row sequences x key x spill pattern x removed columns against sort+dedupe",
+         "Every sequence of up to 4 (thorough 5) rows over a 3-column alphabet, every key choice incl. composite/reordered/none, three spill patterns and every removable column set is fed to two real sorters; SortedBlocks and SortedRows are compared with sort+dedupe, with each other, and the temp directory is listed after Close. A second family runs under a build-time overlay that scales the block size to 3 so duplicates and spills straddle block boundaries. The sorter's logic depends on order relations between a few rows and chunk heads, which this scope exhausts.",
+         "Trusted: 60-line sort+dedupe model; the overlay only replaces the literal 255 by 3 in sorter.go/block.go/table.go (fail-closed if the text changes). Long cells and many-chunk merges beyond 8 rows are not covered.",
+         "DESIGN.md §4 C19"),
 }
 
 NOT_YET = {}
